@@ -249,6 +249,18 @@ func govBelowDeposits(w *World) (below bool) {
 }
 
 func haltSite(s string) string {
+	if i := strings.Index(s, "invariant broken: "); i >= 0 {
+		// the crisis module halts the chain on a broken registered invariant (--inv-check-period)
+		rest := s[i+len("invariant broken: "):]
+		if j := strings.IndexAny(rest, "\n"); j > 0 {
+			rest = rest[:j]
+		}
+		rest = strings.TrimSpace(strings.ReplaceAll(strings.ReplaceAll(rest, ": ", "-"), " ", "-"))
+		if len(rest) > 60 {
+			rest = rest[:60]
+		}
+		return "invariant-" + rest
+	}
 	switch {
 	case strings.Contains(s, "invalid coin denominations"):
 		return "coin-denominations"
